@@ -280,26 +280,32 @@ def oracle(case):
             sched = [sc / 2 ** k for k in range(6)] + [t, t / 2, t / 4]
         else:      # the library CG returns t*g at a negative-curvature start
             sched = [t / 2 ** k for k in range(6)] + [t, t / 2, t / 4]
-        along = [s for s in sched if s > 0]
-        lowers = [s for s in along if _f_at(case, list(np.array(x0) - s * g)) < f0 - 1e-9 * scale]
-        if lowers:
+        # the line search accepts the FIRST trial of the schedule that does not increase the energy: the claim is made
+        # when that trial is unambiguous (earlier ones clearly higher) and is a strictly lowering step along -g
+        fk = [_f_at(case, list(np.array(x0) - s * g)) for s in sched]
+        tolE = 1e-9 * scale
+        first = None
+        for k, (s, e) in enumerate(zip(sched, fk)):
+            if e > f0 + tolE:
+                continue
+            if e < f0 - tolE and s > 0:
+                first = k
+            break
+        if first is not None:
+            sk = sched[first]
             kw1 = dict(_kwargs(case, pinned), maxiter=1, miniter=None)
             for variant in ("eager", "static"):
                 o = _run_real(case, variant, kw1, pinned)
                 if "error" in o:
                     return (f"{variant} Newton-CG fails ({o['error']}) at a negative-curvature start",
-                            _sig("negcurv_no_progress", variant=variant, how="error"))
-                step = np.array(o["x"]) - np.array(x0)
-                s = -(step @ g) / gg
-                par = np.linalg.norm(step + s * g) <= 1e-7 * (np.linalg.norm(step) + 1e-300)
-                ok = o["fun"] < f0 - 1e-10 * scale and o["status"] != -1
-                if len(along) == len(sched):
-                    ok = ok and s > 0 and par
-                if not ok:
+                            _sig("negcurv_no_progress", variant=variant, how="error", cg="fake" if fake else "library"))
+                xe = np.array(x0) - sk * g
+                okx = np.max(np.abs(np.array(o["x"]) - xe)) <= 1e-7 * (np.max(np.abs(xe)) + 1.0)
+                if not (o["fun"] < f0 - 1e-10 * scale and o["status"] != -1 and okx):
                     how = "status%d" % o["status"] if o["status"] in (0, -1) else "other"
-                    return (f"{variant} Newton-CG at a negative-curvature start (g.Hg={curv:.4g}) does not step along -g "
-                            f"to lower energy although trial length {lowers[0]:.4g} does: status={o['status']}, "
-                            f"fun-f0={o['fun'] - f0:.4g}, step coefficient={s:.4g}",
+                    return (f"{variant} Newton-CG at a negative-curvature start (g.Hg={curv:.4g}) does not move to "
+                            f"x0 - {sk:.4g} g, the first trial of its schedule that lowers the energy: "
+                            f"status={o['status']}, fun-f0={o['fun'] - f0:.4g}",
                             _sig("negcurv_no_progress", variant=variant, how=how, cg="fake" if fake else "library"))
     # eager and compiled agree (where the eager outcome is stable under threshold perturbation)
     re_, rs_ = res["eager"], res["static"]
